@@ -38,7 +38,7 @@ pub fn def() -> CheckDef {
         cases: |t| if t == Tier::Quick { 600 } else { 30_000 },
         needs: |t| {
             let m = if t == Tier::Quick { 1 } else { 40 };
-            vec![("distinct_nontrivial", 100 * m), ("format_aeon", 50 * m), ("format_bnet", 20 * m), ("format_sbml", 30 * m), ("k_0", 20 * m), ("k_1", 20 * m), ("k_2", 20 * m), ("k_3", 20 * m), ("analysis_archives", 100 * m), ("sets_reloaded", 500 * m), ("large_entries_reloaded", 20 * m), ("single_formula_analyses", 100 * m), ("both_role_label_analyses", 20 * m)]
+            vec![("distinct_nontrivial", 100 * m), ("format_aeon", 50 * m), ("format_bnet", 5 * m), ("format_sbml", 30 * m), ("k_0", 20 * m), ("k_1", 20 * m), ("k_2", 20 * m), ("k_3", 20 * m), ("analysis_archives", 100 * m), ("sets_reloaded", 500 * m), ("large_entries_reloaded", 10 * m), ("single_formula_analyses", 100 * m), ("both_role_label_analyses", 20 * m)]
         },
         run,
         prelude: None,
@@ -147,7 +147,14 @@ fn run(rng: &mut Rng, idx: u64, _tier: Tier) -> CaseOut {
     if format == "bnet" {
         nopts.kind_weights = [1, 0, 0, 0];
     }
-    let net = crate::net::gen_net(rng, &nopts);
+    let mut net = crate::net::gen_net(rng, &nopts);
+    if format == "bnet" {
+        // the .bnet format carries no regulation flags (the reader infers them from the functions)
+        for r in net.regs.iter_mut() {
+            r.sign = None;
+            r.observable = false;
+        }
+    }
     let world = World::from_net(net, rng, 10, 128);
     let k = rng.below(4) as u16;
     let dir = scratch_dir("c16", idx);
